@@ -16,6 +16,7 @@ _ValueType = TypeVar("_ValueType")
 
 class Aggregate(Transform[Jacobians, Gradients]):
     def __init__(self, aggregator: Aggregator, key_order: Iterable[Tensor]):
+        key_order = list(key_order)  # It is used several times, and it can be a one-shot iterable
         matrixify = _Matrixify(key_order)
         aggregate_matrices = _AggregateMatrices(aggregator, key_order)
         reshape = _Reshape(key_order)
